@@ -1,0 +1,45 @@
+//go:build verif
+// +build verif
+
+// Package verifhook provides observation points for the runtime monitors under
+// /verif. With the "verif" build tag the hooks forward to the functions
+// installed by the monitor (if any).
+package verifhook
+
+import "sync/atomic"
+
+var (
+	yieldFn atomic.Value // of func(site string)
+	visitFn atomic.Value // of func(site string, key interface{})
+)
+
+// SetYield installs f as receiver of Yield events; nil uninstalls.
+func SetYield(f func(site string)) {
+	if f == nil {
+		f = func(string) {}
+	}
+	yieldFn.Store(f)
+}
+
+// SetVisit installs f as receiver of Visit events; nil uninstalls.
+func SetVisit(f func(site string, key interface{})) {
+	if f == nil {
+		f = func(string, interface{}) {}
+	}
+	visitFn.Store(f)
+}
+
+// Yield marks a point at which a monitor may widen thread interleavings.
+func Yield(site string) {
+	if f, ok := yieldFn.Load().(func(string)); ok {
+		f(site)
+	}
+}
+
+// Visit reports that the loop at site is processing the entry with the given
+// key.
+func Visit(site string, key interface{}) {
+	if f, ok := visitFn.Load().(func(string, interface{})); ok {
+		f(site, key)
+	}
+}
